@@ -18,7 +18,7 @@ TRUSTED = c03.TRUSTED + ["IpmWriter records: the bytes produced by iso8583.dumps
 ASSUMPTIONS = c03.ASSUMPTIONS + ["real files are created under the system temp directory and removed"]
 
 MSGS = [{'MTI': '1144', 'DE2': '4444555566667777'}, {'MTI': '1240', 'DE3': '000000', 'DE48': 'X' * 900},
-        {'MTI': '1644', 'DE24': '697', 'DE71': 7}]
+        {'MTI': '1644', 'DE24': '697', 'DE71': 7}, {'MTI': '1644', 'DE24': '695', 'DE71': 9}]
 
 
 def impl_eval(case):
@@ -43,14 +43,24 @@ def impl_eval(case):
         w = cls(f, blocked=blocked)
         for o in objs:
             w.write(o)
-        for c in case['fins']:
-            if c == 'c':
-                w.close()
-            elif case.get('withstmt'):
-                with w:              # a real `with` statement: __enter__ then __exit__ (also on an already finalised writer)
-                    pass
-            else:
-                w.__exit__(None, None, None)
+        def finalise():
+            for c in case['fins']:
+                if c == 'c':
+                    w.close()
+                elif case.get('withstmt'):
+                    with w:          # a real `with` statement: __enter__ then __exit__ (also on an already finalised writer)
+                        pass
+                else:
+                    w.__exit__(None, None, None)
+        if case.get('inexcept'):
+            # the writer finalised from inside an `except` block (a fallback path): an unrelated, already handled
+            # exception is "current" while close() runs
+            try:
+                raise KeyError('unrelated')
+            except KeyError:
+                finalise()
+        else:
+            finalise()
         if path:
             f.flush()
             f.close()
@@ -106,7 +116,7 @@ def explore(run, tier):
     cases = []
     maxfin = 4 if tier == 'quick' else 6
     rec_sets = [[], [5], [1004], [1008, 3], [20, 20, 20], [2016]]
-    ipm_sets = [[], [0], [1, 0], [0, 1, 2]]
+    ipm_sets = [[], [0], [1, 0], [0, 1, 2], [2, 0, 3, 2, 1, 3]]      # the last: header .. trailer twice (a trailer mid-file)
     for nf in range(1, maxfin + 1):
         for fins in itertools.product('ce', repeat=nf):
             fins = ''.join(fins)
@@ -115,6 +125,8 @@ def explore(run, tier):
                     kinds = ['mem', 'real'] if (tier == 'thorough' or (i + nf + b) % 4 == 0) else ['mem']
                     for kind in kinds:
                         cases.append({'cls': 'vbs', 'b': b, 'recs': recs, 'fins': fins, 'file': kind})
+                        if nf <= 2 and kind == 'mem':
+                            cases.append({'cls': 'vbs', 'b': b, 'recs': recs, 'fins': fins, 'file': kind, 'inexcept': True})
                         if 'e' in fins and kind == 'mem':
                             cases.append({'cls': 'vbs', 'b': b, 'recs': recs, 'fins': fins, 'file': kind, 'withstmt': True})
                 for i, recs in enumerate(ipm_sets):
